@@ -26,10 +26,11 @@ UPPER = Function("UPPER", Str, Str)            # s.upper()
 SEP = Function("SEP", R, Str)                  # node.separator (class attribute of the node class, non-empty)
 ROOT = Function("ROOT", R, R)                  # node.root (navigation contract, C04)
 UFn = DeclareSort("UFn")                   # user callback node -> value
-KS = DeclareSort("CacheKey")                 # keys of Resolver._match_cache: (pattern, ignorecase)
-KEY = Function("KEY", Str, B, KS)
-KEYP = Function("KEYP", KS, Str)
-KEYI = Function("KEYI", KS, B)
+from z3 import Datatype as _DT
+_K = _DT("CacheKey")                         # keys of Resolver._match_cache: the pair (pattern, ignorecase)
+_K.declare("KEY", ("KEYP", Str), ("KEYI", B))
+KS = _K.create()
+KEY, KEYP, KEYI = KS.KEY, KS.KEYP, KS.KEYI
 RE = DeclareSort("Regex")                    # compiled pattern objects
 COMPILE = Function("COMPILE", Str, I, RE)    # re.compile(pattern, flags)
 MATCHES = Function("MATCHES", RE, Str, B)    # compiled.match(name) is not None
@@ -79,7 +80,7 @@ _jx, _ksx, _cx, _ax = Const("j_ax", J), Const("ks_ax", SeqJ), Const("c_ax", U), 
 J_AXIOMS = [_FA([_cx, _ax], And(JCLS(NEWJ(_cx, _ax)) == _cx, JARG(NEWJ(_cx, _ax)) == _ax, Not(JHASKIDS(NEWJ(_cx, _ax))))),
             _FA([_jx, _ksx], And(JCLS(WITHKIDS(_jx, _ksx)) == JCLS(_jx), JARG(WITHKIDS(_jx, _ksx)) == JARG(_jx),
                                  JHASKIDS(WITHKIDS(_jx, _ksx)), JKIDS(WITHKIDS(_jx, _ksx)) == _ksx))]
-TEXT_AXIOMS = [ISNONE(NONE_U), _FA([_kp, _ki], And(KEYP(KEY(_kp, _ki)) == _kp, KEYI(KEY(_kp, _ki)) == _ki)), _FA([_bi], BOR(0, _bi) == _bi)]
+TEXT_AXIOMS = [ISNONE(NONE_U), _FA([_bi], BOR(0, _bi) == _bi)]
 _s = String("s_ax")
 
 
@@ -171,6 +172,18 @@ class TextExec(SeqExec):
     def s_Expr(self, st, p):
         # parts.pop(0) on a local list of strings: functional update of the local
         v = st.value
+        if (isinstance(v, ast.Call) and isinstance(v.func, ast.Attribute) and v.func.attr == "append" and isinstance(v.func.value, ast.Name)
+                and v.func.value.id in p.env and p.env[v.func.value.id].k == "qseq" and len(v.args) == 1 and not v.keywords):
+            lst = p.env[v.func.value.id]
+            if (lst.x or {}).get("shared"):
+                raise Unsupported("in-place mutation of a list that has another name")
+            out = []
+            for q, a in self.ev(v.args[0], p):
+                if a.k != "ref" or (lst.x or {}).get("elem", "ref") != "ref":
+                    raise Unsupported("append of %r" % (a,))
+                q.env[v.func.value.id] = V("qseq", Concat(q.env[v.func.value.id].t, Unit(a.t)), dict(lst.x or {}))
+                out.append(q)
+            return out
         if (isinstance(v, ast.Call) and isinstance(v.func, ast.Attribute) and v.func.attr == "pop" and isinstance(v.func.value, ast.Name)
                 and v.func.value.id in p.env and p.env[v.func.value.id].k == "qseq" and len(v.args) == 1
                 and isinstance(v.args[0], ast.Constant) and v.args[0].value == 0):
@@ -384,6 +397,11 @@ class TextExec(SeqExec):
             fl, n, a, b = obj.t
             h = If(hi.t < 0, hi.t + n, hi.t)
             yield p, V("segs", (fl, If(h < 0, 0, If(h > n, n, h)), a, b))
+            return
+        if obj.k == "qseq" and hi is None and lo is not None and lo.k == "int" and isinstance(e.slice.lower, ast.Constant) \
+                and e.slice.lower.value == 1:
+            from z3 import Extract
+            yield p, V("qseq", Extract(obj.t, 1, Length(obj.t) - 1), dict(obj.x or {}))     # s[1:]
             return
         if obj.k == "qseq" and (obj.x or {}).get("elem") == "str":
             s = obj.t
@@ -736,8 +754,50 @@ class TextExec(SeqExec):
         else:
             yield from SeqExec.builtin2(self, name, pos, kw, p, e)
 
+    def any_all(self, e, p):
+        """any()/all() over a generator expression: `x is v` against a local list is sequence membership; a body made of calls
+        with functional contracts is evaluated at a symbolic index (callee preconditions become obligations)"""
+        from z3 import Contains, Exists, ForAll
+        name = e.func.id
+        g = e.args[0]
+        if len(g.generators) != 1 or g.generators[0].ifs or not isinstance(g.generators[0].target, ast.Name):
+            raise Unsupported("%s(...) form" % name)
+        var = g.generators[0].target.id
+        for q, sv in self.ev(g.generators[0].iter, p):
+            c = g.elt
+            if name == "any" and isinstance(c, ast.Compare) and len(c.ops) == 1 and isinstance(c.ops[0], ast.Is) and sv.k == "qseq":
+                names = [x for x in (c.left, c.comparators[0]) if isinstance(x, ast.Name)]
+                other = [x for x in (c.left, c.comparators[0]) if not (isinstance(x, ast.Name) and x.id == var)]
+                if len(names) == 2 and len(other) == 1:
+                    for q2, ov in self.ev(other[0], q):
+                        if ov.k != "ref":
+                            raise Unsupported("identity membership of %r" % (ov,))
+                        yield q2, vbool(Contains(sv.t, Unit(ov.t)))
+                    continue
+            seq = self.as_iterseq(sv, q)
+            j = Int(fresh("aj"))
+            sub = q.fork(And(0 <= j, j < seq.n), name)
+            n0 = len(sub.pc)
+            sub.env[var] = seq.at(j)
+            saved_h, self.handlers = self.handlers, [[]]
+            outs = list(self.ev_truth(c, sub))
+            raised = self.handlers.pop()
+            self.handlers = saved_h
+            if len(outs) != 1 or raised or len(outs[0][0].pc) != n0:
+                raise Unsupported("%s() body with several outcomes or effects: %s" % (name, ast.unparse(c)))
+            body = outs[0][1]
+            jj = Int("jj")
+            from z3 import substitute
+            bj = substitute(body, (j, jj))
+            rng_ = And(0 <= jj, jj < seq.n)
+            yield q, vbool(Exists([jj], And(rng_, bj)) if name == "any" else ForAll([jj], Implies(rng_, bj)))
+
     def e_Call(self, e, p):
         f = e.func
+        if isinstance(f, ast.Name) and f.id in ("any", "all") and f.id not in p.env and len(e.args) == 1 \
+                and isinstance(e.args[0], ast.GeneratorExp):
+            yield from self.any_all(e, p)
+            return
         # "...{self.x}...".format(self=self)
         if isinstance(f, ast.Attribute) and f.attr == "format" and isinstance(f.value, ast.Constant) \
                 and isinstance(f.value.value, str) and not e.args and len(e.keywords) == 1 and e.keywords[0].arg == "self":
